@@ -33,7 +33,13 @@ pub struct Session;
 #[derive(Serialize, Deserialize, Clone, Debug, PartialEq)]
 pub enum Frame {
     /// Init for the known document (or an unknown one) with a valid initial message
-    Init { known: bool },
+    /// the handshake; `carry` non-empty: its first message already carries these (valid) entries
+    /// instead of the usual fingerprint of everything
+    Init {
+        known: bool,
+        #[serde(default)]
+        carry: Vec<Ent>,
+    },
     /// Sync message carrying valid entries
     SyncCarry { es: Vec<Ent> },
     /// Sync message with made-up ranges and fingerprints
@@ -82,7 +88,7 @@ fn reason_of(r: u8) -> AbortReason {
 
 fn gen_frame(rng: &mut Rng, g: &GenCfg) -> Frame {
     match rng.below(14) {
-        0..=3 => Frame::Init { known: rng.chance(4, 5) },
+        0..=3 => Frame::Init { known: rng.chance(4, 5), carry: if rng.chance(1, 3) { (0..rng.urange(1, 3)).map(|_| gen_ent(rng, g)).collect() } else { vec![] } },
         4..=6 => Frame::SyncCarry { es: (0..rng.urange(0, 2)).map(|_| gen_ent(rng, g)).collect() },
         7 => Frame::SyncRanges { n: rng.range(1, 3) as u8 },
         8..=9 => Frame::Abort { reason: rng.below(3) as u8 },
@@ -108,24 +114,37 @@ impl Scenario for Session {
             let mut frames: Vec<Frame> = Vec::new();
             // bias: a plausible start, then anything
             if !sut_is_alice && rng.chance(3, 4) {
-                frames.push(Frame::Init { known: rng.chance(5, 6) });
+                frames.push(Frame::Init { known: rng.chance(5, 6), carry: if rng.chance(1, 3) { (0..rng.urange(1, 3)).map(|_| gen_ent(rng, &g)).collect() } else { vec![] } });
             }
             for _ in 0..rng.urange(0, max_frames) {
                 frames.push(gen_frame(rng, &g));
             }
             PeerKind::Script(frames)
         };
-        let cut = |rng: &mut Rng| if rng.chance(1, 4) { Some((rng.urange(0, 400), rng.chance(1, 3))) } else { None };
+        // a third of the runs: up to 20 entries per side at keys of one length (they do not prune each
+        // other), so that a real-vs-real session takes several rounds and cuts / local faults land
+        // in the middle of it
+        let flat = rng.chance(1, 3);
+        let span = if flat { 3000 } else { 400 };
+        let cut = |rng: &mut Rng| if rng.chance(1, 4) { Some((rng.urange(0, span), rng.chance(1, 3))) } else { None };
+        let max_items = if flat { 20 } else { 6 };
+        let item = |rng: &mut Rng| {
+            let mut e = gen_ent(rng, &g);
+            if flat {
+                e.k = (0..2).map(|_| *rng.pick(&crate::world::ALPHABET)).collect();
+            }
+            e
+        };
         SessionPlan {
             seed: rng.next_u64(),
             sut_is_alice,
             peer,
-            sut_items: (0..rng.urange(0, 6)).map(|_| gen_ent(rng, &g)).collect(),
-            peer_items: (0..rng.urange(0, 6)).map(|_| gen_ent(rng, &g)).collect(),
+            sut_items: (0..rng.urange(0, max_items)).map(|_| item(rng)).collect(),
+            peer_items: (0..rng.urange(0, max_items)).map(|_| item(rng)).collect(),
             chunk: *rng.pick(&[1usize, 3, 7, 64, 4096]),
             cut_to_sut: cut(rng),
             cut_from_sut: cut(rng),
-            local_fault: if rng.chance(1, 3) { Some((rng.urange(0, 4), rng.below(3) as u8)) } else { None },
+            local_fault: if rng.chance(1, 3) { Some((rng.urange(0, if flat { 9 } else { 4 }), rng.below(3) as u8)) } else { None },
             accept: if rng.chance(3, 4) { 0 } else { rng.range(1, 3) as u8 },
             sut_doc_known: rng.chance(9, 10),
             sut_sync: rng.chance(9, 10),
@@ -206,7 +225,10 @@ async fn encode_frames(frames: &[Frame], donor_init: &iroh_docs::sync::ProtocolM
     let mut out = Vec::new();
     for f in frames {
         let msg = match f {
-            Frame::Init { known } => Some(WireMessage::Init { namespace: if *known { w.doc_id(0) } else { w.doc_id(3) }, message: donor_init.clone() }),
+            Frame::Init { known, carry } => Some(WireMessage::Init {
+                namespace: if *known { w.doc_id(0) } else { w.doc_id(3) },
+                message: if carry.is_empty() { donor_init.clone() } else { MMessage::carrying(carry.iter().map(|e| { let mut e = e.clone(); e.d = 0; e.signed() }).collect()).to_real() },
+            }),
             Frame::SyncCarry { es } => Some(WireMessage::Sync(MMessage::carrying(es.iter().map(|e| { let mut e = e.clone(); e.d = 0; e.signed() }).collect()).to_real())),
             Frame::SyncRanges { n } => {
                 let parts = (0..*n)
@@ -633,6 +655,9 @@ async fn run(plan: &SessionPlan, cx: &mut Cx) -> Res {
                 return Err(Violation::new("counts/mismatch", format!("both sides succeeded but side under test sent={} recv={}, peer sent={} recv={}", so.num_sent, so.num_recv, po.num_sent, po.num_recv)));
             }
             cx.probe("mutual_success");
+            if so.num_sent + so.num_recv >= 8 {
+                cx.probe("mutual_success_moving_8_or_more_entries");
+            }
         }
     }
     if let Some(n) = peer_node {
